@@ -39,7 +39,7 @@ pub fn prop(tier: Tier, seed: u64) -> Prop {
     // ------------------------------------------------------------------------------------------
     // (1) coefficient-model invariants
     // ------------------------------------------------------------------------------------------
-    let (ms, mt): (u32, u32) = tier.pick((22, 3), (160, 24));
+    let (ms, mt): (u32, u32) = tier.pick((16, 2), (160, 24));
     let pairs = model_pairs_st(ms, mt);
     let mut filters: Vec<F> = FILT.to_vec();
     filters.extend(custom_filters());
